@@ -33,7 +33,7 @@ ENGINES.append({"name": "SvgPath", "path": "coq/theories/Svg", "serves_propertie
 ENGINES.append({"name": "JsPrint", "path": "coq/theories/Js/Print*.v + Rewrite*.v + Stmt*.v + NumLit*.v + StrLit*.v + coq/gen/JsTables_gen.v", "serves_properties": ["C01", "C09", "C16"],
      "kind_free_text": "F2 Gallina model of the expression printer's parenthesis decisions, parametric in the precedence maps (regenerated from js/util.go); ECMA-262 expression grammar as derivation relation; harness/cmd/jsoracle (token correspondence, node vm oracle)"})
 ENGINES.append({"name": "CssVal", "path": "coq/theories/Css", "serves_properties": ["C04", "C16"],
-     "kind_free_text": "F2 Gallina model of the four-sides shorthand rewrite + CSS 2.1 box semantics; harness/cmd/cssoracle (exhaustive box correspondence, independent CSS tokenizer/value interpreter as search oracle)"})
+     "kind_free_text": "F2 Gallina models of the four-sides shorthand rewrite (CSS 2.1 box semantics), of the hash-colour rewrite (sRGBA) and of the numeric tokens of a value (Number / Decimal, unit split, zero unit); harness/cmd/cssoracle (exhaustive box correspondence, independent CSS tokenizer/value interpreter as search oracle)"})
 ENGINES.append({"name": "Html", "path": "coq/theories/Html + coq/gen/Tables_gen.v", "serves_properties": ["C03", "C16", "C09"],
      "kind_free_text": "F2 Gallina model of html.Minify's token loop on attribute-free documents (white-space state machine, pre/raw text, tag omission, document tags, Keep* options; traits regenerated from html/table.go) and F1 model of parse/html.EscapeAttrVal; rendered-words specification and the HTML tokenizer's attribute-value states; harness/cmd/htmloracle (token dump + x/net/html tree oracle, stub and real registries)"})
 ENGINES.append({"name": "Options", "path": "coq/theories/Cli/CliOpts.v + coq/theories/Js/PrintGroup.v + coq/theories/Html/HtmlOpts.v + coq/gen/JsGates_gen.v + coq/gen/CliOpts_gen.v", "serves_properties": ["C16", "C01"],
@@ -108,16 +108,22 @@ CHECKS = {
                  "tree builder (its DOCTYPE-case quirk normalised); the parse/html lexer and parse.ReplaceMultipleWhitespaceAndEntities are run, not modelled."),
     },
     "C04": {
-        "engine": "CssVal", "design_ref": "DESIGN.md section 4 / C04",
-        "technique": "Coq proof for the box shorthand (all value lists) and table facts over regenerated tables + exhaustive correspondence; independent CSS value interpreter as search for all other rewrites",
+        "engine": "CssVal", "design_ref": "DESIGN.md section 4 / C04 and section 10",
+        "technique": "Coq proofs for the box shorthand (all value lists), hash colours (sRGBA kept, never longer), numeric tokens (number / percentage / dimension keep value and unit for every lexeme, the unit of a zero dropped only where allowed) and table facts over regenerated tables + exhaustive / generated byte correspondence with css.Minify; independent CSS value interpreter as search for all other rewrites",
         "text": ("Theorems (Props/C04.v): the four-sides collapse of margin/padding/border-width keeps top, right, bottom, left for every value list, is minimal and "
-                 "never longer; every hex/keyword pair of the regenerated colour tables denotes the same sRGB colour (K21 excepted); number exactness comes from "
-                 "C08. Tie: every list of 1-4 values over four distinct lengths x three properties (1,020 cases, exhaustive) through the real css.Minify and the "
-                 "extracted model. PARTIAL: all other rewrites (background*, font*, flex, border*, box-shadow, colour functions, unicode-range, selectors, "
-                 "at-rules, token separation) are decided by search only — 40,000 generated stylesheets / declaration lists per quick run (stylesheet and "
-                 "inline mode, KeepCSS2 on/off, precisions) judged by an independent css-syntax-3 tokenizer and value interpreter; 3 defects found there were "
-                 "repaired (K20, K79, K80), 22 are open findings (K21-K23, K40, K45, K81-K99)."),
-        "note": ("Partial. Trusted: Coq kernel, translator, extraction, driver, the oracle's interpreter of CSS values; parse/css is run, not modelled."),
+                 "never longer; a rewritten hash colour has the same sRGBA and is not longer; every hex/keyword pair of the regenerated colour tables denotes the "
+                 "same sRGB colour (K21 excepted); for EVERY numeric lexeme and either setting of KeepCSS2 a number token keeps its value, a percentage stays a "
+                 "percentage of the same value, a dimension is written as a number of the same value followed by its lower-cased unit or as the bare 0 - the "
+                 "latter only for a zero value with a unit of optionalZeroDimension (all lengths) outside flex and known functions "
+                 "(css_dimensions_keep_value_and_unit; its proof first needed `the exponent fits an int64`, and the counterexample width:0.5e9223372036854775808px "
+                 "-> width:0 is K129 on the real code, repaired). Ties: 1,020 exhaustive box cases, every colour-table key + 4,000 hash tokens, 8,000 numeric tokens "
+                 "(KeepCSS2 on / off, integer properties, known / unknown functions, out-of-range exponents) through the real css.Minify and the extracted models. "
+                 "PARTIAL: all other rewrites (background*, font*, flex, border*, box-shadow, colour functions, unicode-range, selectors, at-rules, token "
+                 "separation) are decided by search only - 40,000 generated stylesheets / declaration lists per quick run (stylesheet and inline mode, KeepCSS2 "
+                 "on/off, precisions) judged by an independent css-syntax-3 tokenizer and value interpreter; repaired from this work: K20, K79, K80, K81, K85, K88, "
+                 "K116, K129; open: K21-K23, K40, K45, K82-K84, K86, K87, K89-K99."),
+        "note": ("Partial. Trusted: Coq kernel, translator, extraction, driver, the oracle's interpreter of CSS values; parse/css is run, not modelled. The "
+                 "under-applied unit drop (a slice overwritten in minifyDimension) breaks no property; the model takes the implementation's choice as an input."),
     },
     "C01": {
         "engine": "JsPrint", "design_ref": "DESIGN.md section 4 / C01 and section 10",
